@@ -96,6 +96,12 @@ impl Iterator for KmerMinimiserGenerator<'_> {
 
         loop {
             if self.pos == self.seq.len() {
+                // emit the run that is still open at the end of the sequence
+                if self.m_active != u64::MAX {
+                    let m_val = self.m_active;
+                    self.m_active = u64::MAX;
+                    return Some((m_val, self.m_window_start, self.seq.len(), k_buff));
+                }
                 return None;
             }
             let pos_char = self.seq[self.pos];
@@ -209,12 +215,6 @@ impl Iterator for KmerMinimiserGenerator<'_> {
                         self.m_active = *self.buff.get(j).unwrap();
                     }
                 }
-            }
-
-            if self.pos == self.seq.len() - 1 {
-                self.pos += 1;
-                // TODO return strand (implement only when needed)
-                return Some((self.m_active, self.m_window_start, self.seq.len(), k_buff));
             }
 
             self.pos += 1;
